@@ -335,6 +335,12 @@ fn owner_of(b: &Built, a: &Act) -> i32 {
 
 /// Execute one case. `c` supplies every choice (random or enumerated).
 pub fn run_case(spec: &CaseSpec, c: &mut Chooser, props: &oracles::Which) -> CaseResult {
+    run_case_with(spec, c, props, None)
+}
+
+/// `directed`: an explicit list of env steps (each is performed only if it is enabled at that
+/// point); used for the directed witnesses of known findings and for hand-written scenarios.
+pub fn run_case_with(spec: &CaseSpec, c: &mut Chooser, props: &oracles::Which, directed: Option<&[Act]>) -> CaseResult {
     let b = build(&spec.topo, &spec.pspecs, &spec.lens, &spec.probe_specs);
     let mut steps = vec![];
     let mut crate_panic = None;
@@ -373,6 +379,22 @@ pub fn run_case(spec: &CaseSpec, c: &mut Chooser, props: &oracles::Which) -> Cas
         ok = do_step(Act::Subscribe(0), &mut steps, &mut st);
     }
     let mut n = 0;
+    if let Some(acts) = directed {
+        for a in acts {
+            if !ok {
+                break;
+            }
+            if *a == Act::Subscribe(0) {
+                continue;
+            }
+            if enabled(&b, spec).iter().any(|x| x.0 == *a) {
+                ok = do_step(a.clone(), &mut steps, &mut st);
+            } else {
+                b.world.lock().notes.push(format!("directed step not enabled: {}", a.show()));
+            }
+        }
+        n = spec.max_steps;
+    }
     while ok && n < spec.max_steps {
         let en = enabled(&b, spec);
         if en.is_empty() {
@@ -384,7 +406,7 @@ pub fn run_case(spec: &CaseSpec, c: &mut Chooser, props: &oracles::Which) -> Cas
         n += 1;
     }
     // final phase: every late member greets; then optionally drain the puppets
-    if ok {
+    if ok && directed.is_none() {
         let mut guard = 0;
         loop {
             let en: Vec<Act> = enabled(&b, spec)
